@@ -131,6 +131,7 @@ EXTRA = {
 
 # flow-like converters: ordinal of the producer closure, name of its node parameter, string literals it emits
 FLOW = {
+    'convert_args_in_math': (3, 'child', [',', ';']),
     'convert_import': (1, 'child', [':', '*']),
     'convert_named': (0, 'child', [':']),
     'convert_keyed': (0, 'child', [':']),
@@ -157,10 +158,15 @@ FLOW = {
 
 
 # state that the producer closure captures mutably (rule R29: turned into an untracked cell)
-CELLS = {'convert_named': ['seen_name'], 'convert_keyed': ['seen_key'], 'convert_closure': ['look_ahead'], 'convert_for_loop': ['look_ahead']}
+CELLS = {'convert_args_in_math': ['peek_hashed_arg'], 'convert_named': ['seen_name'], 'convert_keyed': ['seen_key'], 'convert_closure': ['look_ahead'], 'convert_for_loop': ['look_ahead']}
 
 # extra postconditions of a flow producer closure (appended to its `ensures`)
 FLOW_EXTRA = {
+    'convert_args_in_math': [
+        '[line_break_in_an_argument_list_stays_a_line_break C09] child.kind_s() == SyntaxKind::Space && has_newline_s(child.text_s()) ==> (fitem.0 matches Some(rp) && rp.doc@ == DocV::Hardline && !rp.space_before && !rp.space_after)',
+        '[blank_around_a_separator_never_becomes_a_line_break C09] child.kind_s() == SyntaxKind::Space && !has_newline_s(child.text_s()) ==> fitem.0 is None',
+        '[every_separator_of_a_math_argument_list_is_re_emitted C01] (child.kind_s() == SyntaxKind::Comma ==> (fitem.0 matches Some(rp) && rp.doc@ == txt(","@))) && (child.kind_s() == SyntaxKind::Semicolon ==> (fitem.0 matches Some(rp) && rp.doc@ == txt(";"@)))',
+    ],
     'convert_math_delimited': [
         '[inner_whitespace_kept_exactly C09] node.kind_s() == SyntaxKind::Space ==> (fitem.0 matches Some(rp) && rp.doc@ == space_piece(node) && !rp.space_before && !rp.space_after)',
         '[math_body_tight C09] node.kind_s() == SyntaxKind::Math ==> (fitem.0 matches Some(rp) && !rp.space_before && !rp.space_after)',
@@ -173,7 +179,7 @@ FLOW_EXTRA = {
 # never proved at its definition, and reported as such in the evidence.
 W_PROVED = {
     # flow-based converters (closure contracts below)
-    'convert_named', 'convert_keyed', 'convert_spread', 'convert_unary', 'convert_let_binding', 'convert_destruct_assignment', 'convert_expr_flow', 'convert_set_rule',
+    'convert_args_in_math', 'convert_named', 'convert_keyed', 'convert_spread', 'convert_unary', 'convert_let_binding', 'convert_destruct_assignment', 'convert_expr_flow', 'convert_set_rule',
     'convert_show_rule', 'convert_heading', 'convert_list_item_like', 'convert_math_attach', 'convert_math_frac', 'convert_math_root',
     'convert_import_item_path', 'convert_import_item_renamed', 'convert_binary',
     # wrappers
@@ -191,7 +197,7 @@ W_PROVED = {
     'convert_func_call', 'convert_func_call_plain', 'convert_func_call_args', 'convert_args', 'convert_arg',
 }
 # flow producers that convert every inner expression child with `self.convert_expr(ctx, expr)` where `ctx` is the closure's own parameter
-CTX_PASSING = {'convert_named', 'convert_keyed', 'convert_spread', 'convert_unary', 'convert_binary', 'convert_expr_flow', 'convert_set_rule', 'convert_show_rule',
+CTX_PASSING = {'convert_args_in_math', 'convert_named', 'convert_keyed', 'convert_spread', 'convert_unary', 'convert_binary', 'convert_expr_flow', 'convert_set_rule', 'convert_show_rule',
                'convert_math_attach', 'convert_math_frac', 'convert_math_root'}
 
 # flow producers whose state is an untracked cell (R29): which child is emitted depends on the state, so "nothing is dropped" cannot
@@ -201,7 +207,7 @@ W_EMITS_ONLY = {'convert_closure', 'convert_for_loop'}
 
 # C07 routing: every flow producer hands an expression child that carries an `@typstyle off` mark to an entry point that emits it
 # verbatim.  Not claimed for producers whose choice of entry point depends on untracked state (R29).
-NO_VERBATIM_ROUTING = {'convert_closure', 'convert_for_loop', 'convert_math_delimited', 'convert_import'}   # the latter: own clause in FLOW_EXTRA (only the Math body)
+NO_VERBATIM_ROUTING = {'convert_closure', 'convert_for_loop', 'convert_math_delimited', 'convert_import', 'convert_args_in_math'}   # the latter: own clause in FLOW_EXTRA (only the Math body)
 
 # converters whose W clause is not about the whole node (hand-written in their own .vc file)
 W_OWN = {'convert_table', 'convert_parenthesized_args', 'convert_parenthesized_args_as_list', 'convert_additional_args'}
@@ -237,6 +243,7 @@ GRAMMAR = {
 }
 # the kinds of the node each flow converter is called on
 FLOW_NODEKINDS = {
+    'convert_args_in_math': ['Args'],
     'convert_named': ['Named'], 'convert_keyed': ['Keyed'],
     'convert_spread': ['Spread'], 'convert_unary': ['Unary'], 'convert_binary': ['Binary'], 'convert_let_binding': ['LetBinding'],
     'convert_destruct_assignment': ['DestructAssignment'], 'convert_set_rule': ['SetRule'], 'convert_show_rule': ['ShowRule'],
